@@ -35,7 +35,9 @@ def run_case(case, ctx):
         new = (o.requested_expanded & src_has) - before
         both_missing = o.requested_expanded - src_has - before
         affected = False
-        if o.result is not None:
+        if o.result is not None and o.trusting_stale_index:
+            pass  # a file-only request trusts the surviving index of a wiped destination (see C12)
+        elif o.result is not None:
             tr = {h.value for h in o.result.transferred}
             fl = {h.value for h in o.result.failed}
             if tr & fl:
